@@ -36,6 +36,9 @@ def gen_c08_graph(rng, bnodes):
     if subs and rng.random() < 0.5:
         for lex in rng.sample(['say \\"hi\\"@home', 'a^^b', 'x\\"^^<http://e.org/dt>', 'mail@host', 'see xsd:int', '# no comment', 'ends with \\\\'], 3):
             out.append((rng.choice(subs), EX + 'adv', L(lex)))
+    # a datatype of the example namespace (so that the channels that write IRIs relative to @base have a relative datatype to resolve)
+    if subs and rng.random() < 0.5:
+        out.append((rng.choice(subs), EX + 'area', L('20', EX + 'units/squareMetre')))
     # language-tagged / typed literals containing characters that str.splitlines() (but no line-based reader) treats as line ends:
     # a channel that cuts the statement there loses the tag (U+0085 and U+2028 are legal in XML 1.0, JSON and Turtle strings)
     if subs and rng.random() < 0.5:
@@ -94,6 +97,13 @@ def channels(rng, g, tmpdir, tag, bnodes):
         write(path, text)
         out.append((name, dict(graph_file_input=path, input_format=const), stable))
     out.append(('turtle_iter_raw', dict(raw_graph=nt, input_format=C.TURTLE_ITER), True))
+    # the same statements with every IRI of the example namespace - nodes, predicates and datatypes - written relative to @base
+    rel = "@base <%s> .\n" % EX + nt.replace("<" + EX, "<")
+    out.append(('turtle_iter_base_raw', dict(raw_graph=rel, input_format=C.TURTLE_ITER), True))
+    path = p("base.ttl")
+    write(path, rel)
+    out.append(('turtle_iter_base_file', dict(graph_file_input=path, input_format=C.TURTLE_ITER), True))
+    out.append(('turtle_base_raw', dict(raw_graph=rel, input_format=C.TURTLE), False))
     out.append(('turtle_raw', dict(raw_graph=ser('turtle'), input_format=C.TURTLE), False))
     out.append(('xml_raw', dict(raw_graph=ser('xml'), input_format=C.RDF_XML), False))
     out.append(('jsonld_raw', dict(raw_graph=ser('json-ld'), input_format=C.JSON_LD), False))
@@ -167,6 +177,18 @@ def channels(rng, g, tmpdir, tag, bnodes):
             z.writestr("m%d.nt" % j, "\n".join(part) + "\n" if part else "")
         zs.append(zpath)
     out.append(('zip_list', dict(graph_list_of_files_input=zs, input_format=C.NT, compression_mode=C.ZIP), True))
+    # several archives whose members carry the SAME name (each chunk zipped as export.*), NT and TSV
+    k3 = rng.randint(2, 3)
+    idx3 = split(rng, list(range(len(g))), k3)
+    for kind, const in (('nt', C.NT), ('tsv', C.TSV_SPO)):
+        zs2 = []
+        for j, part in enumerate(idx3):
+            zpath = p("same_%s_%d.zip" % (kind, j))
+            sub = [g[i] for i in part]
+            with zipfile.ZipFile(zpath, "w") as z:
+                z.writestr("export." + kind, (to_nt(sub) if kind == 'nt' else to_tsv(sub)) if sub else "")
+            zs2.append(zpath)
+        out.append(('zip_list_same_names_' + kind, dict(graph_list_of_files_input=zs2, input_format=const, compression_mode=C.ZIP), True))
     return out
 
 
